@@ -561,6 +561,9 @@ def run(res):
             index.append((ci, which, len(stream), len(stream) + len(c[which])))
             stream += c[which]
     impl, rc, err = run_stream([str(h)], stream)
+    if not stream or (rc == 0 and not impl):
+        res.violation("empty run: %d lines generated, %d answers" % (len(stream), len(impl)), {}, False, key="empty-run")
+        return
     crash_case = None
     if rc != 0 or len(impl) != len(stream):
         # locate the case in which the real code aborted
@@ -582,7 +585,10 @@ def run(res):
             res.violation("real code aborts under ASan/UBSan while recycling objects%s: %s | recycled run: %s" % (
                 (" (also: " + " | ".join(broken)[:700] + ")") if broken else "",
                 v2.splitlines()[0][:500], summarise(small["recycled"])),
-                {"ops": small["recycled"], "ops_fresh": small["fresh"], "stderr": v2[-3000:]}, True, key="abort")
+                {"ops": small["recycled"], "ops_fresh": small["fresh"], "stderr": v2[-3000:]}, True,
+                key="abort:" + ((re.search(r" in ([A-Za-z_0-9:~<>]+)", v2.splitlines()[0] if v2 else "") or re.search(r"()", "")).group(1) or "?")[:80])
+            if broken:
+                res.violation("proof obligation no longer checks: " + " | ".join(broken)[:1500], {"unchecked": broken}, False, key="obligation")
             return
         res.violation("harness protocol failure rc=%d (%d answers for %d lines) %s" % (rc, len(impl), len(stream), err[-500:]), {}, False, key="protocol")
         return
@@ -680,11 +686,13 @@ def run(res):
             {"ops": c["recycled"], "ops_fresh": c["fresh"], "monitor": v,
              "how": "feed each list to .build/<tree>/asan/h_c16_*; `vdriver C16` line `cmp <last dump 1> <last dump 2>`"},
             True, key="residue:" + re.sub(r"\d+$", "", comp))
-    elif perturb_bad:
+    if perturb_bad:
         v, what, c = perturb_bad[0]
         res.violation("%s: %s. run: %s" % (what, v, summarise(c["recycled"])),
                       {"ops": c["recycled"], "env": "MALLOC_PERTURB_=85 vs 0, uninstrumented harness", "monitor": v}, True, key="heap-content")
-    elif diffs:
+    # a correspondence difference is reported in its own right, whatever else was found (it must never be hidden by another
+    # violation, least of all by one that matches a known finding)
+    if diffs:
         p, m = diffs[0]
         # find the case for context
         ctx = None
@@ -692,13 +700,14 @@ def run(res):
             if a <= p < b:
                 ctx = stream[a:p + 1]
         res.violation("correspondence model/implementation differs at %r: impl=%s model=%s (%d differing answers); the no-residue monitor is good "
-                      "on all %d recycled-vs-fresh pairs" % (stream[p], impl[p][:300], m[:300], len(diffs), len(pairs)),
+                      "on all %d recycled-vs-fresh pairs" % (stream[p], impl[p][:300], m[:300], len(diffs), len(pairs)) if not (bad or perturb_bad) else
+                      "correspondence model/implementation differs at %r: impl=%s model=%s (%d differing answers)" % (stream[p], impl[p][:300], m[:300], len(diffs)),
                       {"ops": ctx, "impl": impl[p], "model": m, "unchecked": "correspondence Model/Reuse.lean ~ codeholder.cpp/emitter.cpp/builder.cpp"
                        + ("; " + " | ".join(broken) if broken else "")},
                       False, key="corr")
-    elif broken:
+    if broken:
         res.violation("proof obligation no longer checks: " + " | ".join(broken)[:1500] +
-                      " -- no residue was observed in %d recycled-vs-fresh pairs" % len(pairs),
+                      (" -- no residue was observed in %d recycled-vs-fresh pairs" % len(pairs) if not (bad or perturb_bad or res.violations) else ""),
                       {"unchecked": broken}, False, key="obligation")
 
 
